@@ -52,6 +52,7 @@ class Oracle:
 ORACLE = Oracle()
 CORE_ZONES = set(ORACLE.ask(op="zones")["result"])
 ZONES = sorted(CORE_ZONES & zoneinfo.available_timezones())
+ZONE_SET = set(ZONES)
 NEW_ZONES = sorted(zoneinfo.available_timezones() - CORE_ZONES)
 COUNTRIES = ORACLE.ask(op="countries")["result"]
 EXPRS = sorted(
@@ -330,6 +331,34 @@ def sun_args(draw):
                 auto_country=draw(flags), auto_timezone=draw(flags), op=draw(st.sampled_from(["state", "next_change", "intervals"])), time=t, end=None)
 
 
+_SWITCH = {}
+
+
+def switch_instant(zone, day):
+    """UTC instant (aware) of the offset change of `zone` within a day of `day`, to the minute."""
+    key = (zone, day)
+    if key not in _SWITCH:
+        z = zoneinfo.ZoneInfo(zone)
+        utc = dt.timezone.utc
+        lo = (day - dt.timedelta(hours=30)).replace(tzinfo=utc)
+        hi = (day + dt.timedelta(hours=40)).replace(tzinfo=utc)
+        off = lambda u: u.astimezone(z).utcoffset()
+        if off(lo) == off(hi):
+            _SWITCH[key] = day.replace(tzinfo=utc)
+        else:
+            while hi - lo > dt.timedelta(minutes=1):
+                mid = lo + (hi - lo) / 2
+                mid = mid.replace(second=0, microsecond=0)
+                if mid <= lo:
+                    break
+                if off(mid) == off(lo):
+                    lo = mid
+                else:
+                    hi = mid
+            _SWITCH[key] = hi
+    return _SWITCH[key]
+
+
 @st.composite
 def transition_args(draw):
     """Bounds inside the repeated / skipped hour of a DST switch; context zone, input zone or both."""
@@ -341,6 +370,25 @@ def transition_args(draw):
     t = start
     if aware >= 1:
         t = start.replace(tzinfo=zoneinfo.ZoneInfo(zone if aware <= 2 else draw(st.sampled_from(ZONES))), fold=draw(st.integers(0, 1)))
+    if aware == 3 and draw(st.integers(0, 3)) > 0:
+        # an instant within the zone's own offset of the switch (located with zoneinfo: input generation only)
+        z = zoneinfo.ZoneInfo(zone)
+        switch = switch_instant(zone, day)
+        reach = int(max(abs((day + dt.timedelta(days=s)).replace(tzinfo=z).utcoffset().total_seconds()) for s in (-2, 2)) // 60) + 45
+        start = (switch + dt.timedelta(minutes=draw(st.integers(-reach, reach)))).astimezone(z).replace(tzinfo=None)
+        # the same *instant* next to the switch, handed over in another zone - preferably one whose offset equals the
+        # context zone's offset before or after the switch (S-C12-i confuses the two when they coincide)
+        z = zoneinfo.ZoneInfo(zone)
+        inst = start.replace(tzinfo=z, fold=draw(st.integers(0, 1)))
+        cands = ["Europe/London", "Africa/Lagos", "America/Chicago", "UTC"]
+        for probe in (day - dt.timedelta(days=2), day + dt.timedelta(days=2)):
+            h = probe.replace(tzinfo=z).utcoffset().total_seconds() / 3600
+            if h == int(h) and -12 <= h <= 14:
+                name = "Etc/GMT" if h == 0 else f"Etc/GMT{-int(h):+d}"
+                cands += [name, name]
+        cands = [c for c in cands if c in ZONE_SET] or ["UTC"]
+        t = inst.astimezone(zoneinfo.ZoneInfo(draw(st.sampled_from(cands))))
+        ctx_zone = draw(st.sampled_from([zone, zone, zone, None, "UTC"]))
     end = None
     op = draw(st.sampled_from(["next_change", "intervals", "intervals", "state"]))
     if op == "intervals" and draw(st.booleans()):
